@@ -4,7 +4,7 @@
 (* trace.ndjson is what harness/bush recorded from the real pubsub bus: one line per loop      *)
 (* trace point of pubsub/bus.go (new, recv, fwdone, emit, stop, unsub, done) and per driver    *)
 (* call/return (pubcall, pubret, subcall, subret, read, closecall, closeret, end), several     *)
-(* runs separated by "reset" lines.  The variables of Bus.tla are DRIVEN BY THE OBSERVATIONS   *)
+(* runs, each starting with a "reset" line.  The variables of Bus.tla are DRIVEN BY THE OBSERVATIONS   *)
 (* (buf[n] is the buffer the loop logged, published is the order the root loop logged, ...),   *)
 (* so that                                                                                     *)
 (*   (i)  the property definitions of Bus.tla (ExactlyOnceInOrder, NoLoss) are evaluated by    *)
@@ -26,7 +26,9 @@ tvars == <<vars, l, obs, ended, timeouts, blocked>>
 T == Trace[l]
 Is(k) == l <= Len(Trace) /\ T.k = k
 
-TInit == /\ Init /\ l = 1 /\ obs = [n \in Nodes |-> <<>>] /\ ended = FALSE
+(* every run (the lines after a "reset" line up to the next one) is a behaviour of its own *)
+TInit == /\ Init /\ l \in {i + 1 : i \in {j \in 1..Len(Trace) : Trace[j].k = "reset"}}
+         /\ obs = [n \in Nodes |-> <<>>] /\ ended = FALSE
          /\ timeouts = {} /\ blocked = {}
 
 Same(xs) == UNCHANGED xs
@@ -108,23 +110,9 @@ OCall == /\ Is("pubcall") \/ Is("subcall")
 OEnd == /\ Is("end") /\ ended' = TRUE
         /\ Same(<<vars, obs, timeouts, blocked>>)
 
-OReset == /\ Is("reset")
-          /\ st' = [n \in Nodes |-> IF n = Root THEN "run" ELSE "unused"]
-          /\ par' = [n \in Nodes |-> Root]
-          /\ kids' = [n \in Nodes |-> {}]
-          /\ buf' = [n \in Nodes |-> <<>>]
-          /\ cur' = [n \in Nodes |-> 0]
-          /\ todo' = [n \in Nodes |-> {}]
-          /\ stopReq' = [n \in Nodes |-> FALSE]
-          /\ published' = <<>>
-          /\ delivered' = [n \in Nodes |-> <<>>]
-          /\ start' = [n \in Nodes |-> 0]
-          /\ obs' = [n \in Nodes |-> <<>>] /\ ended' = FALSE
-          /\ timeouts' = {} /\ blocked' = {}
-
 TNext == /\ Step
          /\ \/ ONew \/ ORecv \/ OFwdone \/ OEmit \/ OStop \/ OUnsub \/ ODone
-            \/ OCloseCall \/ ORead \/ ORet \/ OCall \/ OEnd \/ OReset
+            \/ OCloseCall \/ ORead \/ ORet \/ OCall \/ OEnd
 
 TSpec == TInit /\ [][TNext]_tvars
 
@@ -153,7 +141,6 @@ NoTimeout == timeouts = {}
 NoBlocked == blocked = {}
 
 (* (ii) conformance: every observed step is a step of the specification *)
-Conform == [][T.k = "reset" \/ Next]_vars
+Conform == [][Next]_vars
 
-AllConsumed == TLCGet("stats").distinct > 0
 =============================================================================
